@@ -77,6 +77,15 @@ func c13Run(c *ev.Ctx) {
 		}
 	}
 	kind := []string{"i32", "i64", "f64", "u32"}[r.Intn(4)]
+	// one case in fifty: a dataset of a MiB that is grown and not written again, next to a
+	// larger dataset that is read before it (large buffers change hands inside one process)
+	large := c.Index%50 == 7
+	if large {
+		rank = 1
+		n := uint64(r.Range(131072, 200000))
+		dims, maxd, chunk = []uint64{n}, []uint64{hx.Unlimited}, []uint64{uint64(r.Range(int(n)/6, int(n)))}
+		kind = []string{"i64", "f64"}[r.Intn(2)]
+	}
 	zeroStyle := 0
 	if r.Chance(1, 3) {
 		zeroStyle = r.Range(1, 3)
@@ -139,6 +148,15 @@ func c13Run(c *ev.Ctx) {
 			filt += "f"
 		}
 	}
+	if large {
+		filt = "plain"
+		cr.Shuffle, cr.Gzip, cr.Fletcher = false, 0, false
+		fv := hx.Val{Kind: "[]f64"}
+		for i := 0; i < 400000; i++ {
+			fv.F = append(fv.F, math.Float64bits(7))
+		}
+		s.Ops = append(s.Ops, hx.Op{K: "create_ds", Path: "/a_full", DT: "f64", Dims: []uint64{400000}, Chunk: []uint64{100000}, Data: &fv})
+	}
 	s.Ops = append(s.Ops, cr)
 	// an unrelated neighbour so that the dataset's structures are not the last ones in the file
 	if r.Bool() {
@@ -154,6 +172,9 @@ func c13Run(c *ev.Ctx) {
 	var steps []step
 	nsteps := r.Range(1, 10)
 	pattern := r.Intn(4) // 0 random, 1 grow-write-shrink-grow, 2 shrink-grow (ghost), 3 repeated grow
+	if large {
+		nsteps, pattern = r.Range(1, 2), 3
+	}
 	cur := model
 	var pat []string
 	for i := 0; i < nsteps; i++ {
@@ -179,6 +200,9 @@ func c13Run(c *ev.Ctx) {
 				}
 				if kindOp == 0 {
 					nd[d] += uint64(r.Range(1, 6))
+					if large {
+						nd[d] += uint64(r.Range(40000, 120000))
+					}
 				} else if nd[d] > 1 {
 					nd[d] = uint64(r.Range(1, int(nd[d])-1))
 				}
